@@ -8,7 +8,7 @@ Import ListNotations.
 Local Open Scope Z_scope.
 
 Definition event_free_op (o : op) : bool :=
-  match o with OKey | OMouse _ => false | _ => true end.
+  match o with OKey | OMouse _ | OFrameRef _ | OFrameUnref _ => false | _ => true end.
 
 (* what a call needs of the heap it is made on *)
 Definition op_pre (h : heap) (o : op) : Prop :=
@@ -18,7 +18,7 @@ Definition op_pre (h : heap) (o : op) : Prop :=
   | ORestack c w => is_restack c = true /\ exists cw, findw h w = Some cw /\ (w_parent cw = None \/ anc h w root)
   | OFocus w | OGetRoot w => anc h w root
   | OFlush w => w = root /\ findw h root <> None
-  | OKey | OMouse _ => False
+  | OKey | OMouse _ | OFrameRef _ | OFrameUnref _ => False
   | ONop => True
   end.
 
@@ -44,6 +44,8 @@ Lemma run_op_S : forall V f o,
    | OUnbind w id => upd w (fun c => set_hs c (filter (fun hd => negb (h_id hd =? id)) (w_hs c)))
    | OGeom w => getw w ;;; ret tt
    | ONop => ret tt
+   | OFrameRef w => window_ref w
+   | OFrameUnref w => unref V f w
    end).
 Proof. reflexivity. Qed.
 
@@ -366,7 +368,7 @@ Definition op_preb (h : heap) (o : op) : bool :=
     end
   | OFocus w | OGetRoot w => intreeb (depth_fuel h) h w
   | OFlush w => Pos.eqb w root && liveb h root
-  | OKey | OMouse _ => false
+  | OKey | OMouse _ | OFrameRef _ | OFrameUnref _ => false
   | ONop => true
   end.
 
